@@ -182,6 +182,19 @@ func (g *c15Gen) action() bool {
 		}
 		label = "push-missing-read"
 		g.last[a.name] = "push"
+	case k == 23:
+		// sort returns a copy: stores into the copy and into the original stay apart
+		stmts = append(stmts, ast.ExprS(ast.Set(ast.Id("sv"), ast.Method(a.expr(), "sort"))))
+		if n > 0 {
+			stmts = append(stmts, ast.ExprS(ast.Set(ast.Idx(ast.Id("sv"), g.index(n)), g.scalarElem())))
+			if g.b("alsoorig") {
+				stmts = append(stmts, ast.ExprS(ast.Set(ast.Idx(a.expr(), g.index(n)), g.scalarElem())))
+			}
+		} else {
+			stmts = append(stmts, ast.ExprS(ast.Method(ast.Id("sv"), "push", g.scalarElem())))
+		}
+		stmts = append(stmts, ast.Print(ast.Str("SV"), ast.Id("sv"), ast.Method(ast.Id("sv"), "length")))
+		label = "sort-then-store"
 	case k == 17:
 		// push returns the array: use the result without storing it anywhere else
 		res(ast.Method(ast.Method(a.expr(), "push", g.scalarElem()), "length"))
